@@ -18,7 +18,8 @@ func init() {
 			"(Q) messages travel only through the connection's two FIFO channels: serverMessages has one send site in the reader goroutine (started once per connection) and is received only in ReadServerMessages; clientMessages is received only in the writer goroutine; " +
 			"(O) order and completeness: the data endpoint walks the decoded slice in index order, calls SendClientMessage synchronously and aborts on the first error; SendClientMessage has a single send site; the writer writes Type and Data of the very message it received; the reader queues Type and Data of one ReadMessage result (a fresh slice per message); ReadServerMessages appends every received message, in receive order, to the slice it returns and the poll endpoint marshals exactly that slice; " +
 			"(J) injection parses the whole message with json.Unmarshal, adds only keys that a lookup in the same object misses, keeps the message type, runs only when enabled, and an injection error leaves the original message in place. " +
-			"(M) message payloads are not kept in pooled buffers; a poll that has taken a message from the queue returns the accumulated messages with a nil error on every path.",
+			"(M) message payloads are not kept in pooled buffers; a poll that has taken a message from the queue returns the accumulated messages with a nil error on every path." +
+			" A failed injection cannot return before the enqueue; the enqueueing select waits only for the queue and the connection's own end; ReadServerMessages reports an error only when the queue is closed and drained; each queue has one receiving side.",
 		Assumptions: []string{"gorilla/websocket ReadMessage returns a freshly allocated slice; WriteMessage sends one frame with the given type; Go channels are FIFO; encoding/json round-trips strings"},
 		Run:         runC11,
 	})
